@@ -529,6 +529,11 @@ def correspond(ctx):
         "untraced_volume_ops": vol_ops,
         "size_classes_compared": len(table),
         "page_size": K.get("page_size"),
+        "unproved": ["span caches' size limits and the order in which cached spans are reused (they decide only WHEN a span is unmapped)",
+                     "the global reserve (unused when span_map_count <= heap_reserve_count and page size <= span size; harness reports the page size)",
+                     "the span-layer model (ProofsSpans.v) is tied to the code only through its observable consequences checked on every operation (span inside a live mapping, master flags/total_spans, remaining_spans >= span_count) and the map/unmap balance at every finalize - not operation by operation",
+                     "heap-level invariant across different size classes and large blocks (each class machine and the span layer are proved separately)",
+                     "the OS returning span-aligned, non-overlapping mappings (checked at run time by the map hook)"],
     })
     del cov["streams"]
     return cov
